@@ -14,6 +14,51 @@ def OpenPost (sid : Nat) (p : OpenParams) (s : St) (r : Except String Unit) (s' 
     c.negotiated = false ∧
     (s'.1.listeners = true → Out.evChannel s.1.chans.length ∈ s'.2 ∧ c.silent = false)
 
+/-- what an application handler (a re-entrant `send()`) can change: the reaction list, `bufferedAmount`, the queue and
+the log - every other field of every channel object, and the transport's listeners, stay -/
+def ReactKeepPost (s1 : St) (r : Except String Unit) (s' : St) : Prop :=
+  s'.1.listeners = s1.1.listeners ∧ (∃ l2, s'.2 = s1.2 ++ l2) ∧
+  ∀ (j : Nat) c, s1.1.chans[j]? = some c → ∃ c', s'.1.chans[j]? = some c' ∧ c' = { c with buffered := c'.buffered }
+
+theorem wp_react_keeps (k i : Nat) (s1 : St) : WP (react k i) (ReactKeepPost s1) s1 := by
+  have same : ∀ (e' : Ep) (l' : List Out) (r : Except String Unit), e'.listeners = s1.1.listeners →
+      e'.chans = s1.1.chans → (∃ l2, l' = s1.2 ++ l2) → ReactKeepPost s1 r (e', l') := by
+    intro e' l' r h1 h2 h3
+    exact ⟨h1, h3, fun j c hc => ⟨c, by rw [h2]; exact hc, rfl⟩⟩
+  unfold react
+  wp_simp
+  split
+  · wp_simp; exact same _ _ _ rfl rfl ⟨[], by simp⟩
+  · wp_simp
+    cases hc : s1.1.chans[i]? with
+    | none => simp only; exact same _ _ _ rfl rfl ⟨[], by simp⟩
+    | some c =>
+      simp only
+      have hlt : i < s1.1.chans.length := (List.getElem?_eq_some_iff.1 hc).1
+      split
+      · wp_simp; exact same _ _ _ rfl rfl ⟨_, rfl⟩
+      · unfold dcSend addBuffered0 addBufferedCore
+        wp_simp
+        rw [hc]
+        simp only
+        have upd : ∀ (e' : Ep) (l' : List Out) (b : Int) (r : Except String Unit), e'.listeners = s1.1.listeners →
+            e'.chans = s1.1.chans.set i { c with buffered := b } → (∃ l2, l' = s1.2 ++ l2) →
+            ReactKeepPost s1 r (e', l') := by
+          intro e' l' b r h1 h2 h3
+          refine ⟨h1, h3, ?_⟩
+          intro j x hx
+          rw [h2]
+          by_cases hj : i = j
+          · subst hj
+            rw [hc] at hx; cases hx
+            exact ⟨_, List.getElem?_set_self hlt, rfl⟩
+          · exact ⟨x, by simpa [List.getElem?_set_ne hj] using hx, rfl⟩
+        split
+        · wp_simp
+          exact upd _ _ _ _ rfl rfl ⟨_, List.append_assoc _ _ _⟩
+        · wp_simp
+          exact upd _ _ _ _ rfl rfl ⟨_, rfl⟩
+
 theorem dcReceive_open (sid : Nat) (data : Bytes) (p : OpenParams) (hp : decodeOpen data = some p)
     (s : St) (hI : LifeInv s.1) (hfree : dictGet s.1.dataChannels sid = none) :
     WP (dcReceive sid WEBRTC_DCEP data) (OpenPost sid p s) s := by
@@ -55,15 +100,20 @@ theorem dcReceive_open (sid : Nat) (data : Bytes) (p : OpenParams) (hp : decodeO
           rw [hc2]
           (try simp only)
           (try wp_head)
-          intro _
           have hlt : s.1.chans.length < s2.1.chans.length := (List.getElem?_eq_some_iff.1 hc2).1
-          refine ⟨{ c2 with silent := false }, by simp [List.getElem?_set_self hlt], ?_, ?_, ?_, ?_⟩
-          · rw [← hp]
+          refine WP.mono (wp_react_keeps 4 _ (_, _)) ?_
+          intro r s' ⟨hl', ⟨l2, hl2⟩, hk⟩ _
+          obtain ⟨c', hc', he⟩ := hk s.1.chans.length { c2 with silent := false }
+            (by simp [List.getElem?_set_self hlt])
+          refine ⟨c', hc', ?_, ?_, ?_, ?_⟩
+          · rw [← hp, he]
             simp only [Chan.openParams, hst.label, hst.protocol, hst.ordered, hst.maxRetransmits,
               hst.maxPacketLifeTime]
-          · exact hst.id_keep sid rfl
-          · exact hst.negotiated
-          · intro _; exact ⟨by simp, rfl⟩
+          · rw [he]; exact hst.id_keep sid rfl
+          · rw [he]; exact hst.negotiated
+          · intro _
+            refine ⟨by rw [hl2]; simp, ?_⟩
+            rw [he]
         · rename_i hl
           wp_head
           intro _
